@@ -280,7 +280,7 @@ def history_contract(env, factory, props, const=None, setup_model=None, pre=None
     # sweeps in the thorough tier only (noted in the evidence)
     thorough = _os.environ.get("OASVERIF_TIER", "quick") == "thorough"
     est = 1.4 * t1 * len(free)
-    if est > (900.0 if thorough else 25.0):
+    if est > (150.0 if thorough else 25.0):
         env.note("%s: sweep histories skipped (estimated %.0f s)%s" % (hF.fq, est, "" if thorough else "; run in the thorough tier"))
         free = []
     for kin in free:
